@@ -1581,7 +1581,8 @@ impl Melda {
                 c.lock().unwrap();
             #[cfg(melda_verif)]
             let mut c_r = c.lock().unwrap();
-            let root = c_r.get(start).expect("root_object_not_found");
+            // The root may be deleted (e.g. the document was re-rooted under another identifier)
+            let root = c_r.get(start).ok_or_else(|| anyhow!("no_root"))?;
             let root = Value::from(root.clone());
             let result = unflatten(&mut c_r, &root)
                 .unwrap()
